@@ -113,7 +113,7 @@ def run(pid, tier, seed):
                         "NodeMixin, user LightNodeMixin with slots) x every entry node x deepcopy and every pickle protocol",
                         "evaluations": out.get("evaluations", 0), "distinct_nontrivial": out.get("nontrivial", 0),
                         "rule": "one case = (tree, class mix, entry node, protocol/deepcopy)", "found": out.get("found")})
-    bad = [o for o in res.obligations if o.kind != "CANARY" and o.result != "unsat"]
+    bad = [o for o in res.obligations if o.kind not in ("CANARY", "PROBE") and o.result != "unsat"]
     if bad or res.struct or out.get("found"):
         payload = {"property": pid, "failed_obligations": [o.name for o in bad], "notes": [o.note for o in bad],
                    "struct_failures": [{"function": s.ident, "reason": s.msg} for s in res.struct], "harness": "pickling.py"}
